@@ -54,6 +54,24 @@ def execute(payload: bytes, check: str = "crc"):
         rig.close()
 
 
+def execute_two_in_one(older: bytes, newer: bytes, check="crc"):
+    """One refresh whose exchange carries an older (unsolicited) state report followed by the actual reply."""
+    ref = RefAC(check=check)
+    ref.report_body = bytes(newer)
+
+    def script(req):
+        old = req.dev.wrap(req.conn, rc.frame_build(bytes(older), 0x05, check=check))
+        req.conn.deliver_many([old] + list(req.responses), 0.01)
+
+    rig = Rig(2, ac=ref, script=script)
+    ac = rig.client()
+    try:
+        out = rig.run(ac.refresh())
+        return out, ac
+    finally:
+        rig.close()
+
+
 def execute_history(payloads, check="crc"):
     """One client: refresh(P0); local (unapplied) edits of every settable attribute; refresh(P1); ... - the last report wins."""
     from msmart.device import AirConditioner as AC
@@ -220,6 +238,9 @@ def run_shard(shard, tier) -> Stats:
             p[a] = v
             q = base_payload()
             q[a] = (v * 7 + 13) & 0xFF
+            out, ac = execute_two_in_one(q, p, "crc" if v % 2 else "sum")
+            prob = judge(st, {"kind": "history two-reports-in-one-exchange", "byte": a, "value": v, "sequence": "two-in-one"}, p, out, ac)
+            st.ev(("history", a, v, "two-in-one"), "match" if not prob else "differ", True)
             for seq, label in (([p, p], "same-report-twice"), ([q, p], "other-report-first"), ([p, q, p], "back-to-first")):
                 case = {"kind": "history", "byte": a, "value": v, "sequence": label}
                 out, ac = execute_history(seq, "crc" if v % 2 else "sum")
@@ -247,6 +268,9 @@ def replay(case):
     if str(case.get("kind", "")).startswith("history"):
         q = base_payload()
         q[case["byte"]] = (case["value"] * 7 + 13) & 0xFF
+        if case["sequence"] == "two-in-one":
+            out, ac = execute_two_in_one(q, p, "crc" if case["value"] % 2 else "sum")
+            return {"problem": judge(st, case, p, out, ac), "state": str(ac.to_dict())[:400]}
         seq = {"same-report-twice": [p, p], "other-report-first": [q, p], "back-to-first": [p, q, p]}[case["sequence"]]
         out, ac = execute_history(seq, "crc" if case["value"] % 2 else "sum")
         return {"problem": judge(st, case, p, out, ac), "state": str(ac.to_dict())[:400]}
